@@ -700,7 +700,9 @@ func c02UnsolicitedBytesKeyedOnAwaitedResponse(c *Ctx) {
 		"the flag is not raised before the request is written: the response (which can arrive as soon as the first byte is out) would be taken for unsolicited bytes and the connection retired under a live request")
 	// lowered after the response was read, before it is handed over
 	lowered := false
-	reads := callsIn(serve, false, func(cc *ssa.CallCommon) bool { return methodName(cc) == "Read" && strings.Contains(calleeName(cc), "fasthttp.Response") })
+	reads := callsIn(serve, false, func(cc *ssa.CallCommon) bool {
+		return methodName(cc) == "Read" && strings.Contains(calleeName(cc), "fasthttp.Response")
+	})
 	hands := callsIn(serve, false, calledAs("handleResponse"))
 	for _, st := range storeOf(serve, 0) {
 		okR, okH := false, len(hands) > 0
